@@ -131,7 +131,11 @@ namespace rpc
         slice(off_t off, size_t len) : offset(off), length(len) {}
 
         string anchor(const buffer& base_buffer) const {
-            assert(offset + length <= base_buffer.size());
+            // offset/length may come off the wire: never hand out a string
+            // that lies outside of the base buffer
+            auto size = base_buffer.size();
+            if (offset < 0 || (size_t)offset > size || length > size - (size_t)offset)
+                return {};
             return {(char*) base_buffer.addr() + offset, length};
         }
 
